@@ -13,6 +13,9 @@
 
 #define CHUNK_SIZE	20
 
+/* the largest time_t (a signed integer type here) */
+#define TIME_T_MAX	((time_t) ((((uint64_t) 1) << (sizeof (time_t) * 8 - 1)) - 1))
+
 typedef struct pending_call_s
 {
   time_t delta;
@@ -96,6 +99,12 @@ int new_call_out (object_t * ob, svalue_t * fun, time_t delay, int num_args, sva
   /* Needs to be initialized here in case of very early call_outs */
   if (!call_out_time)
     call_out_time = current_time;
+  /* The delay is any LPC integer. The slot and the number of turns of the wheel
+   * are computed from delay + current_time: if that sum overflows the entry gets
+   * a negative delta, the sweep never counts it down to zero, and it holds back
+   * every call_out queued behind it in its slot. */
+  if (delay > TIME_T_MAX - current_time)
+    delay = TIME_T_MAX - current_time;
 
   if (!call_list_free)
     {
